@@ -10,8 +10,9 @@
       target read back is the argument and there is no value;
     - [XmlProcessingInstruction::set_content]: [xml_parser::pi("<?{target} {content}?>")], all
       consumed; the value read back is stored;
-    - [create_entity_reference] (dom/src/lib.rs): [xml_parser::reference("&{name};")] answers Ok
-      (the rest is NOT looked at);
+    - [create_entity_reference] (dom/src/lib.rs, after repair D64 = 37c72ae):
+      [xml_parser::reference("&{name};")], all consumed, and the result is a reference to a general
+      entity whose name is the argument;
     - [XmlAttribute::set_values]: [xml_parser::attribute("{local}={escape(value)}")], all consumed,
       where [escape] chooses the apostrophe as delimiter when the value holds a quotation mark;
       the value items are the parsed pieces, a character reference is resolved by
@@ -38,10 +39,6 @@ Definition parse_reference : str -> pres (reference * str) :=                   
 (** [Ok(("", t))]: the parser succeeded and consumed everything *)
 Definition whole {A} (r : pres (A * str)) : option A :=
   match r with POk (a, []) => Some a | _ => None end.
-
-(** [Ok(_)]: the parser succeeded, whatever is left *)
-Definition succeeded {A} (r : pres (A * str)) : bool :=
-  match r with POk _ => true | _ => false end.
 
 (** info's [is_qname] *)
 Definition is_qname (s : str) : bool := match whole (parse_qname s) with Some _ => true | None => false end.
@@ -71,7 +68,11 @@ Definition pi_fact (s : str) : option str :=
   | None => None
   end.
 
-Definition ref_fact (s : str) : bool := succeeded (parse_reference ([38] ++ s ++ [59])).   (* "&s;" *)
+Definition ref_fact (s : str) : bool :=
+  match whole (parse_reference ([38] ++ s ++ [59])) with                  (* "&s;" *)
+  | Some (RefEntity v) => Peg.str_eqb v s
+  | _ => false
+  end.
 
 Definition facts_of_name (s : str) : DomOps.name_info :=
   DomOps.mkName s (elem_fact s) (attr_fact s) (pi_fact s) (ref_fact s).
